@@ -248,3 +248,76 @@ package cose
 //@       && (isES(alg) && key is *ecdsa.PublicKey && ecdh_err(ecpub(key.(*ecdsa.PublicKey))) != nil ==> Is(err, ErrInvalidPubKey))
 //@       && (alg == -8 && !(key is ed25519.PublicKey) ==> Is(err, ErrInvalidPubKey))
 //@   modifies frame [C18]: nothing
+
+// ===================================================================
+// cbor.go  (C02, C05, C06, C07)
+// ===================================================================
+
+// canon(b): the bstr item b with its length prefix in shortest form (RFC 9052 section 9)
+//@ spec canon(b Bytes) Bytes = head_minimal(b) ? b : enc(cv_bstr(bstr_content(b)))
+
+//@ func deterministicBinaryString
+//@   ensures iff [C02, C07, C10]: err == nil <==> (len(data) > 0 && b_major(bytes(data)) == 2 && bstr_wf(bytes(data)))
+//@   ensures canon [C02, C10]: err == nil ==> bytes(result) == canon(bytes(data)) && len(result) > 0
+//@   ensures fast_iff_minimal [C02, C18]: err == nil ==> (head_minimal(bytes(data)) ==> result == data) && (!head_minimal(bytes(data)) ==> fresh(result))
+//@   ensures err_nil: err != nil ==> result == nil
+//@   modifies frame [C18]: nothing
+
+// ===================================================================
+// headers.go: encoding of the two buckets (C02, C08, C09, C13)
+// ===================================================================
+
+// content of the protected bstr: empty for an empty header, else the encoded map
+//@ spec protContent(h ProtectedHeader) Bytes = len(h) == 0 ? bempty : enc(cvof(asmap(h)))
+//@ spec ProtBytes(h Headers) Bytes = len(h.RawProtected) > 0 ? bytes(h.RawProtected) : enc(cv_bstr(protContent(h.Protected)))
+//@ spec UnprotBytes(h Headers) Bytes = len(h.RawUnprotected) > 0 ? bytes(h.RawUnprotected) : (len(h.Unprotected) == 0 ? byte1(160) : enc(cvof(asmap(h.Unprotected))))
+
+//@ func validateHeaderParameters
+//@   modifies frame [C18]: nothing
+
+//@ func (ProtectedHeader).MarshalCBOR
+//@   ensures fun [C02, C04, C08, C09, C10]: err == nil ==> bytes(result) == enc(cv_bstr(protContent(h))) && fresh(result) && len(result) > 0
+//@   ensures err_nil: err != nil ==> result == nil
+//@   modifies frame [C18]: nothing
+
+//@ func (UnprotectedHeader).MarshalCBOR
+//@   ensures fun [C08, C09]: err == nil ==> bytes(result) == (len(h) == 0 ? byte1(160) : enc(cvof(asmap(h)))) && fresh(result) && len(result) > 0
+//@   ensures err_nil: err != nil ==> result == nil
+//@   modifies frame [C18]: nothing
+
+//@ func (*Headers).MarshalProtected
+//@   requires nonnil: h != nil
+//@   ensures raw_preferred [C02, C09, C10]: len(h.RawProtected) > 0 ==> err == nil && result == h.RawProtected
+//@   ensures fun [C02, C04, C08, C09, C10]: err == nil ==> bytes(result) == ProtBytes(*h) && len(result) > 0
+//@   ensures fresh_or_raw [C18, C19]: err == nil && len(h.RawProtected) == 0 ==> fresh(result)
+//@   ensures err_nil: err != nil ==> result == nil
+//@   modifies frame [C18]: nothing
+
+//@ func (*Headers).MarshalUnprotected
+//@   requires nonnil: h != nil
+//@   ensures raw_preferred [C09]: len(h.RawUnprotected) > 0 ==> err == nil && result == h.RawUnprotected
+//@   ensures fun [C08, C09]: err == nil ==> bytes(result) == UnprotBytes(*h) && len(result) > 0
+//@   ensures err_nil: err != nil ==> result == nil
+//@   modifies frame [C18]: nothing
+
+// ===================================================================
+// sign1.go / sign.go: Sig_structure  (C02, C03, C04, C20)
+// ===================================================================
+
+//@ spec payloadcv(p []byte) CV = p == nil ? cv_null : cv_bstr(bytes(p))
+// RFC 9052 section 4.4 Sig_structure for COSE_Sign1: unprotected headers and tags do not occur in it
+//@ spec Sig1(prot Bytes, external []byte, payload []byte) Bytes = enc(arr(cv_tstr("Signature1"), cv_raw(canon(prot)), cv_bstr(bytes(external)), payloadcv(payload)))
+// ... and for one signer of a COSE_Sign
+//@ spec SigN(body Bytes, prot Bytes, external []byte, payload []byte) Bytes = enc(arr(cv_tstr("Signature"), cv_raw(canon(body)), cv_raw(canon(prot)), cv_bstr(bytes(external)), payloadcv(payload)))
+
+//@ func (*Sign1Message).toBeSigned
+//@   requires nonnil: m != nil
+//@   ensures fun [C01, C02, C03, C04, C20]: err == nil ==> bytes(result) == old(Sig1(ProtBytes(m.Headers), external, m.Payload)) && fresh(result)
+//@   ensures err_nil: err != nil ==> result == nil
+//@   modifies frame [C18]: nothing
+
+//@ func (*Signature).toBeSigned
+//@   requires nonnil: s != nil
+//@   ensures fun [C01, C02, C03, C04, C11, C20]: err == nil ==> bytes(result) == old(SigN(bytes(bodyProtected), ProtBytes(s.Headers), external, payload)) && fresh(result)
+//@   ensures err_nil: err != nil ==> result == nil
+//@   modifies frame [C18]: nothing
